@@ -66,8 +66,11 @@ def opLimits : J.Op := fun j => do
   let U := M.uA          -- `self.u_a`; `u_misc` is read by nothing here
   let beta := M.beta
   let P ← J.field j "pop" (decPop nv)
+  -- `ploidy` handed over as a numpy intN scalar: `int(ploidy) * shape[0]` is a Python-int product (D62 repaired); the
+  -- wrapped pre-repair frequency is only computed on request ("prerepair": true, used by nobody on the repaired tree)
+  let pre ← J.fieldD j "prerepair" J.bool false
   let p := match ← J.fieldOpt j "ploidy_bits" J.nat with
-    | some bits => afreqNpPloidy (α := Rat) bits P.ploidy nv P.Z      -- `ploidy` handed over as a numpy intN scalar (D62)
+    | some bits => if pre then afreqNpPloidyPrerepair (α := Rat) bits P.ploidy nv P.Z else popFreq nv P
     | none => popFreq nv P
   let o := modelObs nv ntr U beta P.ploidy P.Z p
   let valid : Bool := popValid nv P
